@@ -784,11 +784,11 @@ section preDep
 variable {cfg : Cfg} (ok : CfgOK cfg) (hfuel : cfg.fuel = 0) (hall : OrdAll cfg)
 include ok hfuel hall
 
-/-- rounds in which a new connection is accepted read no frame: the INFO log line of `accept` is delivered with the
-    writable set of the *previous* `select` (it is sampled afresh only afterwards, and only when there is a frame to
-    read), while the Spec judges the whole stretch before the first frame read with the new one — the two agree when the
-    new set is empty -/
-def AccOK (s : State) (r : Round) : Prop := r.accept = true → readsS s r = []
+/-- a round in which a new connection is accepted reads no frame — unless log lines of level INFO are not forwarded at
+    all: the INFO log line of `accept` is delivered with the writable set of the *previous* `select` (it is sampled
+    afresh only afterwards, and only when there is a frame to read), while the Spec judges the whole stretch before the
+    first frame read with the new one — the two agree when the new set is empty, or when the line writes nothing -/
+def AccOK (cfg : Cfg) (s : State) (r : Round) : Prop := r.accept = true → 20 ≥ cfg.logLevel → readsS s r = []
 
 omit ok hfuel hall in
 /-- nobody becomes able to take a CLIENT_CLOSED frame by `accept` with an empty writable set: the new table entry is
@@ -814,7 +814,7 @@ theorem back_accept (cfg : Cfg) {sL : State} (inv : SubInv cfg sL) :
   · exact Or.inr x
 
 /-- the departure facts of the preamble of a round -/
-theorem pre_dep {s : State} (h : Top cfg s) (r : Round) (hacc : AccOK s r) : Dep cfg none none s (preS cfg s r) := by
+theorem pre_dep {s : State} (h : Top cfg s) (r : Round) (hacc : AccOK cfg s r) : Dep cfg none none s (preS cfg s r) := by
   have t1 : Top cfg (envStep s r) := top_same ok hfuel h _ rfl rfl rfl
   unfold preS
   dsimp only
@@ -829,7 +829,15 @@ theorem pre_dep {s : State} (h : Top cfg s) (r : Round) (hacc : AccOK s r) : Dep
     · exact dep_same ho1
     · exact dep_same ho1
   | true =>
-    have hre : readsS s r = [] := hacc hacc'
+    by_cases hlvl : 20 ≥ cfg.logLevel
+    case neg =>
+      -- the line is not forwarded: no event at all
+      simp only [Bool.true_or, if_true]
+      have : acceptStep cfg s1 = { s1 with nextUid := s1.nextUid + 1, mods := s1.mods ++ [{ uid := s1.nextUid + 1 }] } := by
+        unfold acceptStep logAt; simp only [hlvl, if_false]
+      rw [this]
+      exact dep_same ho1
+    have hre : readsS s r = [] := hacc hacc' hlvl
     simp only [Bool.true_or, if_true, hre, List.isEmpty_nil]
     have dL := dt_log ok hall hfuel t1 20
     generalize hsL : logAt cfg (fwdTop cfg) 20 s1 = sL at dL
@@ -877,23 +885,23 @@ proved property was reported violated (for C07: in a round that meets `AccOK`). 
 theorem round_ok {a : A} {s : State} (inv : Inv cfg a s) (r : Round) (hwf : RoundWF r) (evs : List Ev)
     (he : (step cfg s r).out = s.out ++ evs) :
     Inv cfg (Spec.round cfg a r evs) (step cfg s r) ∧
-    (∀ p ∈ proven, (p = "C07" → AccOK s r) → Spec.NoErr p a → Spec.NoErr p (Spec.round cfg a r evs)) := by
+    (∀ p ∈ proven, (p = "C07" → AccOK cfg s r) → Spec.NoErr p a → Spec.NoErr p (Spec.round cfg a r evs)) := by
   have hord : OrdOK cfg := ordOK_of_perm hperm
   have hall : OrdAll cfg := OrdAll_of_perm hperm
   have tStep : T (step cfg s r) := step_T ok hmt hord hfuel inv.top inv.t r
   have tPre : T (preS cfg s r) := pre_T ok hmt hord hfuel inv.top inv.t r
-  have dPre : AccOK s r → Dep cfg none none s (preS cfg s r) := pre_dep ok hfuel hall inv.top r
+  have dPre : AccOK cfg s r → Dep cfg none none s (preS cfg s r) := pre_dep ok hfuel hall inv.top r
   rw [round_eq]
   rw [step_eq cfg s r inv.top.good.ok] at he tStep ⊢
   obtain ⟨eAcc, hPout, hnoAcc, hsP, tP, jP, hreads, herrs⟩ := pre_ok ok hfuel inv r hwf
   rw [hreads]
   have hwf' : ∀ rd ∈ readsS s r, rd.uid ≠ 0 := fun rd hrd => hwf rd (List.mem_filter.mp hrd).1
-  have dPre' : AccOK s r → DepE cfg none none (preS cfg s r) eAcc := by
+  have dPre' : AccOK cfg s r → DepE cfg none none (preS cfg s r) eAcc := by
     intro h
     obtain ⟨e, o, d⟩ := dPre h
     have : e = eAcc := List.append_cancel_left (o.symm.trans hPout)
     rw [← this]; exact d
-  generalize hAcc : AccOK s r = acc at dPre'
+  generalize hAcc : AccOK cfg s r = acc at dPre'
   generalize readsS s r = reads at *
   generalize preS cfg s r = sP at *
   generalize preA a r = a3 at *
@@ -1009,15 +1017,15 @@ def RoundsWF (rs : List Round) : Prop := ∀ r ∈ rs, RoundWF r
 /-- `AccOK` along the run of a history -/
 def AccRounds (cfg : Cfg) : State → List Round → Prop
   | _, [] => True
-  | s, r :: rs => AccOK s r ∧ AccRounds cfg (step cfg s r) rs
+  | s, r :: rs => AccOK cfg s r ∧ AccRounds cfg (step cfg s r) rs
 
-/-- histories in which a round that accepts a new connection delivers no frame -/
-def AccAlone (rs : List Round) : Prop := ∀ r ∈ rs, r.accept = true → r.reads = []
+/-- log lines of level INFO are not forwarded, or: a round that accepts a new connection delivers no frame -/
+def AccAlone (cfg : Cfg) (rs : List Round) : Prop := 20 ≥ cfg.logLevel → ∀ r ∈ rs, r.accept = true → r.reads = []
 
-theorem accRounds_of_alone (cfg : Cfg) : ∀ (rs : List Round) (s : State), AccAlone rs → AccRounds cfg s rs
+theorem accRounds_of_alone (cfg : Cfg) : ∀ (rs : List Round) (s : State), AccAlone cfg rs → AccRounds cfg s rs
   | [], _, _ => trivial
-  | r :: rs, s, h => ⟨fun ha => by unfold readsS; rw [h r (by simp) ha]; rfl,
-      accRounds_of_alone cfg rs _ (fun x hx => h x (by simp [hx]))⟩
+  | r :: rs, s, h => ⟨fun ha hl => by unfold readsS; rw [h hl r (by simp) ha]; rfl,
+      accRounds_of_alone cfg rs _ (fun hl x hx => h hl x (by simp [hx]))⟩
 
 section hist
 variable {cfg : Cfg} (ok : CfgOK cfg) (hfuel : cfg.fuel = 0) (hperm : OrdPerm cfg) (hmt : cfg.mtClosed ≠ cfg.allTypes)
@@ -1108,10 +1116,11 @@ theorem rounds_ok : ∀ (rs : List Round) (a : A) (s : State), Inv cfg a s → R
 
 /-- **The model meets the Spec, for the proved properties.**  Run the model on any well-formed history, hand the Spec
 the history and the events the model wrote, round by round: the Spec's verdict contains no entry for a property in
-`proven` (for C07: on histories in which a round that accepts a connection delivers no frame, `AccAlone`) — and its
+`proven` (for C07: when INFO log lines are not forwarded, or on histories in which a round that accepts a connection
+delivers no frame, `AccAlone`) — and its
 abstract state at the end simulates the model's final state. -/
 theorem model_meets_spec_proven (rs : List Round) (hwf : RoundsWF rs) :
-    ∀ p ∈ proven, (p = "C07" → AccAlone rs) → Spec.NoErr p (Spec.runSpec cfg rs (modelObs cfg rs) none) := by
+    ∀ p ∈ proven, (p = "C07" → AccAlone cfg rs) → Spec.NoErr p (Spec.runSpec cfg rs (modelObs cfg rs) none) := by
   intro p hp hacc
   have hord : OrdOK cfg := ordOK_of_perm hperm
   have hallO : OrdAll cfg := OrdAll_of_perm hperm
